@@ -46,6 +46,12 @@ def binop(ip, op, a, b):
         if isinstance(a, SList) or isinstance(b, SList):
             if isinstance(a, SList) and isinstance(b, list):
                 return SList(a.rid, a.n, list(a.tail) + b, a.elem, a.cls, a.taken)
+            if isinstance(b, SList) and isinstance(a, list) and not isinstance(b.n, int) and ctx.check(b.n != 0) == z3.unsat:
+                return a + list(b.tail)      # the unknown prefix is empty on this path
+            if isinstance(b, SList) and isinstance(b.n, int) and b.n == 0 and isinstance(a, list):
+                return a + list(b.tail)
+            if isinstance(b, SList) and isinstance(a, list):
+                return a + ip.iterate(b)     # only possible when the length of b is bounded on this path
             raise Unsupported('concatenation with symbolic list on the right')
     if op == 'Mult':
         if (ops.seq_like(a) or isinstance(a, (str, SStr, list, tuple))) and _is_int(b):
@@ -227,34 +233,50 @@ def _neg_offset(ctx, l, idx):
     return None
 
 
+def _from_end(ctx, l, b, default):
+    """distance from the end of list l denoted by slice bound b (concrete int); None if it cannot be made concrete"""
+    if b is None:
+        return default
+    if isinstance(b, int) and b < 0:
+        return -b
+    total = int_term(ops.slist_len(l))
+    d = z3.simplify(total - int_term(b))
+    if z3.is_int_value(d):
+        return max(d.as_long(), 0)
+    if ctx.check(d < 0) != z3.unsat or ctx.check(d > 64) != z3.unsat:
+        return None
+    return ctx.concretize(d, limit=66, what='slice bound distance from end')
+
+
 def slist_getitem(ip, l, idx):
     ctx = ip.ctx
     if isinstance(idx, slice):
         if idx.step not in (None, 1):
             raise Unsupported('slice step on symbolic list')
         lo, hi = idx.start, idx.stop
-        if isinstance(lo, int) and lo < 0 and (hi is None or (isinstance(hi, int) and hi < 0)):
-            # Python clamps: fewer than -lo elements gives the whole list
-            k = -lo
-            if not ops.slist_need(ctx, l, k):
-                # list shorter than k: whole list (all materialised now, prefix empty)
-                part = list(l.tail)
-                return part if hi is None else part[:hi]
-            part = l.tail[len(l.tail) - k:]
-            return part if hi is None else part[:len(part) + hi] if -hi <= len(part) else []
-        raise Unsupported('slice %r of symbolic list' % (idx,))
+        dhi = _from_end(ctx, l, hi, 0)
+        if dhi is None:
+            raise Unsupported('slice upper bound %r of symbolic list' % (hi,))
+        if lo is None or (isinstance(lo, int) and lo == 0):
+            if ops.slist_need(ctx, l, dhi):
+                return SList(l.rid, l.n, list(l.tail[:len(l.tail) - dhi]), l.elem, l.cls if l.cls is list else list, l.taken)
+            return []
+        dlo = _from_end(ctx, l, lo, None)
+        if dlo is None:
+            raise Unsupported('slice lower bound %r of symbolic list' % (lo,))
+        if ops.slist_need(ctx, l, dlo):
+            n = len(l.tail)
+            return list(l.tail[n - dlo:n - dhi]) if dhi <= dlo else []
+        n = len(l.tail)        # shorter than dlo: everything is explicit now
+        return list(l.tail[:max(n - dhi, 0)])
     k = _neg_offset(ctx, l, idx)
     if k is not None:
         if not ops.slist_need(ctx, l, k):
             pyraise(IndexError, 'list index out of range')
         return l.tail[len(l.tail) - k]
     if isinstance(idx, (SInt, SBool)) or isinstance(idx, int):
-        # index from the front or symbolic index: resolve as offset from the end when possible
         t = int_term(idx)
         total = int_term(ops.slist_len(l))
-        # negative symbolic index: -k, k-th from the end
-        if isinstance(idx, int):
-            raise Unsupported('non-negative index %d into symbolic-length list' % idx)
         if ctx.branch(t < 0):
             kterm = -t
         else:
@@ -403,6 +425,67 @@ def m_bytesio(ip, args, kwargs):
     return SymStream(args[0], 0)
 
 
+class HashObj(Sym):
+    """hashlib-style object over symbolic data; the digest is an uninterpreted function of the data"""
+    DIGEST = {'sha256': 32, 'sha1': 20, 'ripemd160': 20, 'sha512': 64, 'md5': 16}
+    pytype = object
+
+    def __init__(self, name, data):
+        self.name, self.data = name, data
+
+
+def uf_bytes(ctx, name, args, outlen):
+    """uninterpreted function returning `outlen` bytes (DESIGN §2.7); arguments: bytes / ints"""
+    sorts, terms = [], []
+    for a in args:
+        if isinstance(a, (bytes, SBytes, str, SStr)):
+            sorts.append(IntSeq)
+            terms.append(ops.as_sseq(a).seq_term())
+        elif isinstance(a, (int, SInt, SBool)):
+            sorts.append(z3.IntSort())
+            terms.append(int_term(a))
+        else:
+            raise Unsupported('argument %r of uninterpreted function %s' % (a, name))
+    f = z3.Function(name, *(sorts + [IntSeq]))
+    app = f(*terms)
+    ctx.couple(app, outlen)
+    ctx.ufs.add(name)
+    return SBytes(seq=SeqPart(app, outlen))
+
+
+def hash_method(ip, h, name, args, kwargs):
+    if name == 'digest':
+        return uf_bytes(ip.ctx, h.name, [h.data], HashObj.DIGEST[h.name])
+    if name == 'hexdigest':
+        from . import strings
+        return strings.hex_of(ip, hash_method(ip, h, 'digest', [], {}))
+    if name == 'update':
+        h.data = ops.seq_concat(h.data, args[0])
+        return None
+    raise Unsupported('hash object method %s' % name)
+
+
+def _hash_model(name, native):
+    def m(ip, args, kwargs):
+        data = args[0] if args else kwargs.get('data', b'')
+        if is_concrete(data):
+            return native(*args, **kwargs)
+        if not isinstance(data, (SBytes, bytes)):
+            pyraise(TypeError, 'hash data must be bytes')
+        return HashObj(name, data)
+    return m
+
+
+def m_hashlib_new(ip, args, kwargs):
+    import hashlib
+    if is_concrete(args) and is_concrete(kwargs):
+        return ip.native(hashlib.new, args, kwargs)
+    nm = args[0]
+    if nm not in HashObj.DIGEST:
+        raise Unsupported('hashlib.new(%r)' % (nm,))
+    return HashObj(nm, args[1] if len(args) > 1 else kwargs.get('data', b''))
+
+
 class BoundedCut(Exception):
     """Path dropped because it leaves a stated bound (never counted as proved)."""
 
@@ -416,6 +499,8 @@ def call_method(ip, obj, name, args, kwargs):
         return slist_method(ip, obj, name, args, kwargs)
     if isinstance(obj, SymStream):
         return stream_method(ip, obj, name, args, kwargs)
+    if isinstance(obj, HashObj):
+        return hash_method(ip, obj, name, args, kwargs)
     if isinstance(obj, (SInt, SBool)) or (isinstance(obj, int) and not isinstance(obj, bool)):
         if name == 'to_bytes':
             return int_to_bytes(ip, obj, *args, **kwargs)
@@ -1052,5 +1137,15 @@ def install_default_models(reg):
     M[print] = lambda ip, a, k: None
     import io
     M[io.BytesIO] = m_bytesio
+    import hashlib
+    M[hashlib.sha256] = _hash_model('sha256', hashlib.sha256)
+    M[hashlib.sha1] = _hash_model('sha1', hashlib.sha1)
+    M[hashlib.sha512] = _hash_model('sha512', hashlib.sha512)
+    M[hashlib.new] = m_hashlib_new
+    try:
+        from Crypto.Hash import RIPEMD160
+        M[RIPEMD160.new] = _hash_model('ripemd160', RIPEMD160.new)
+    except ImportError:
+        pass
     from . import strings
     strings.install(reg)
